@@ -18,7 +18,7 @@ extern ec_backend_t liberasurecode_backend_instance_get_by_desc(int desc);
 
 /* one-time allocations of libc (syslog's stream and time-zone caches, the loader's bookkeeping for
    a backend library opened for the first time) are made before the ledger starts */
-static void warmup(cfg_t c) {
+void warmup(cfg_t c) {
     struct ec_args a; memset(&a, 0, sizeof a); a.k = c.k; a.m = c.m; a.hd = c.hd; a.ct = CHKSUM_CRC32;
     for (int r = 0; r < 2; r++) {
         int d = liberasurecode_instance_create((ec_backend_id_t)c.be, &a);
@@ -234,6 +234,22 @@ void suite_ledger(int tier) {
             stat_add("ledger.xor_patterns", 1);
         }
     }
+    /* every shape once: allocation strategies that depend on k, m or k*k (stack below a threshold, pools, caches)
+       change behaviour at one value only.  Quick: every k with one m, every m with one k; thorough: all 496 */
+    for (int k = 1; k <= 31; k++) for (int m = 1; k + m <= 32; m++) {
+        if (!tier && !(m == 1 + (k * 7) % 4 || (k == 2 + m % 3)) ) continue;
+        if (k + m > 32) continue;
+        cfg_t c = { 6, k, m, m, 2 };
+        ledger_t L; L.c = c; L.pat = ledger_pattern(c); strcpy(L.calls, "CESfUfRScfD"); L.n = (int)strlen(L.calls);
+        ledger_emit(&L);
+        stat_add("ledger.rs_shape_sweep", 1);
+    }
+    for (int si = 0; si < n_xor_shapes; si++) {
+        cfg_t c = { 3, xor_shapes[si][0], xor_shapes[si][1], xor_shapes[si][2], 2 };
+        ledger_t L; L.c = c; L.pat = ledger_pattern(c); strcpy(L.calls, "CESfUfRScfD"); L.n = (int)strlen(L.calls);
+        ledger_emit(&L);
+        stat_add("ledger.xor_shape_sweep", 1);
+    }
     /* rs_vand: erasure sets of every size */
     for (int t = 0; t < (tier ? 200 : 30); t++) {
         cfg_t c = { 6, 1 + (int)rnd(10), 1 + (int)rnd(5), 0, 2 }; c.hd = c.m;
@@ -424,8 +440,10 @@ void suite_fault(int tier) {
     }
     natfail_emit(6, 4, 2, 2, 0x7); natfail_emit(6, 4, 2, 2, 0x31); natfail_emit(0, 3, 2, 2, 0x3);
     (void)tier;
-    cfg_t cfgs[] = { {6,4,2,2,2}, {3,5,5,3,2}, {0,3,2,2,2}, {4,4,2,2,2}, {6,1,1,1,2}, {3,10,6,4,2}, {7,3,3,3,2} };
-    for (unsigned ci = 0; ci < (tier ? 7u : 4u); ci++) for (int op = 0; op < 5; op++) for (int n = 0; n < 3; n++) {
+    /* shapes with k > m, k = m and k < m (unwinding loops run over k, over m or over k+m), every backend */
+    cfg_t cfgs[] = { {6,4,2,2,2}, {3,5,5,3,2}, {0,3,2,2,2}, {4,4,2,2,2}, {6,2,5,5,2}, {0,3,7,7,2}, {6,3,3,3,2}, {7,2,4,4,2},
+                     {6,1,1,1,2}, {3,10,6,4,2}, {7,3,3,3,2}, {6,1,3,3,2}, {4,2,2,2,2}, {6,16,16,16,2}, {6,1,31,31,2}, {0,1,1,1,2} };
+    for (unsigned ci = 0; ci < (tier ? 16u : 8u); ci++) for (int op = 0; op < 5; op++) for (int n = 0; n < 3; n++) {
         if ((cfgs[ci].be == 4 || cfgs[ci].be == 7) && !g_isal) continue;
         fault_t F = { cfgs[ci], op, n };
         op_begin("fault %d %d %d %d %d %d", F.c.be, F.c.k, F.c.m, F.c.hd, op, n); op_sep();
